@@ -1036,10 +1036,19 @@ async fn handle_new_connection_established(
       };
 
       if sca_mailbox.send(attach_cmd).await.is_err() {
-        return Err(ZmqError::Internal(format!(
-          "Failed to send ScaInitializePipes to SCA {}",
-          sca_handle_id
-        )));
+        // The session is gone already (the peer reset the connection at once). That concerns
+        // this connection only: undo its registration as for any session that stopped.
+        tracing::warn!(handle = core_handle, sca_id = sca_handle_id, conn_uri = %endpoint_uri_from_event, "Session ended before its pipes could be attached.");
+        shutdown::handle_actor_stopping_event(
+          core_arc.clone(),
+          socket_logic_strong,
+          sca_handle_id,
+          crate::runtime::ActorType::Session,
+          Some(&endpoint_uri_from_event),
+          Some(&ZmqError::ConnectionClosed),
+        )
+        .await;
+        return Ok(());
       }
 
       tracing::debug!(
